@@ -22,7 +22,7 @@ see exactly the enclosing calls' state; after the outermost call returns or
 raises, no state is left.
 """
 
-NAMES = ["sym", "kw", "nested", "lst", "dct", "cyc", "cycd", "mcyc", "A", "mA", "lA", "B", "D", "C", "R", "mR", "Q", "dA"]
+NAMES = ["sym", "kw", "nested", "lst", "dct", "cyc", "cycd", "mcyc", "mself", "A", "mA", "lA", "B", "D", "C", "R", "mR", "Q", "dA"]
 
 A = ("inst", "A", None, {})
 T = ("inst", "T", None, {})
@@ -36,6 +36,8 @@ OPERANDS = {
     "cyc": ("list", "L", [T, ("ref", "L")]),
     "cycd": ("dict", "Dd", [(("str", "k"), T), (("str", "me"), ("ref", "Dd"))]),
     "mcyc": ("mlist", [("list", "L", [("sym", "a"), T, ("ref", "L")])]),
+    # a MODEL reachable from itself (through a mutable Python list): m = '[L a] with L = [m]; the operand is m
+    "mself": ("first", ("list", "L", [("mlist", [("ref", "L"), ("sym", "a")])])),
     "A": A,
     "mA": ("mlist", [A, ("sym", "b")]),
     "lA": ("list", None, [A, ("sym", "a")]),
@@ -146,6 +148,8 @@ def build(spec, labels, path, env=None):
 
     if kind == "ref":
         return env[spec[1]]
+    if kind == "first":
+        return build(spec[1], labels, path + "^", env).items[0]
     if kind in ("sym", "kw", "int", "str", "mint", "mstr"):
         n.val = spec[1]
         real = {"sym": M.Symbol, "kw": M.Keyword, "int": int, "str": str, "mint": M.Integer, "mstr": M.String}[kind](spec[1])
